@@ -2,14 +2,18 @@
 from . import _proto
 
 LEVEL = "other"
-RULES = {"C02.R1", "C02.R2", "C02.R4", "C02.R5", "C02.R6", "C02.R7"}
+RULES = {"C02.R1", "C02.R2", "C02.R3", "C02.R4", "C02.R5", "C02.R6", "C02.R7", "C02.R9"}
+
+
+def extra(res, facts, entries, protos):
+    _proto.refusal_rules(res, "C02.R8", facts)
 
 
 def run(tier):
     return _proto.run_rules(
         "C02", LEVEL, RULES,
-        {"C02.R1": 4, "C02.R2": 12, "C02.R4": 4, "C02.R5": 26, "C02.R6": 5},
+        {"C02.R1": 4, "C02.R2": 12, "C02.R3": 4, "C02.R4": 4, "C02.R5": 26, "C02.R6": 5, "C02.R8": 2, "C02.R9": 4},
         "sibling agreement between try_sign and try_verify of the 4 public protocols: the consumer cuts the message at len - (signature length of the specification), the length guard rejects only "
         "payloads shorter than a signature, both sides authenticate the same PAE component list (v3: compressed public key first), the producer emits message || signature(PAE); wrappers forward key, footer, assertion",
         ["correctness of RSA-PSS (ring), Ed25519 (ed25519-dalek) and ECDSA P-384 (p384): verify(sign(m)) holds for a valid key pair"],
-        None, "signature scheme correctness and key-pair validity (cryptographic / run time)")
+        extra, "signature scheme correctness and key-pair validity (cryptographic / run time)")
